@@ -396,7 +396,33 @@ def _targeted():
                 yield ["seq", items]
 
 
+def _cache_branches():
+    """SetContext elements before a Cache, consumers after it, as a branch / a nested sequence
+    of every container kind (these trees are built again while the cache file exists)."""
+    n = 0
+    for form in ("seq", "tuple", "source"):
+        for name in ("c_@.pkl", "c_@_{{a}}.pkl"):
+            for outer in ("split", "seq", "source"):
+                n += 1
+                items = [["set", "a", 1], ["set", "b", "{{a}}x"], ["data", "inc"],
+                         ["cache", "c%d" % n, name.replace("@", "c%d" % n)], ["store", "sA"],
+                         ["ucfs", "uA"], ["mkfn", "mA", {"filename": "f_{{b}}"}, False],
+                         ["write", "wA", "w_{{a}}"], ["set", "c", 3]]
+                br = [form, items] + ([0] if form == "source" else [])
+                if outer == "split":
+                    yield ["seq", [["set", "d.x", 5], ["split", [br, ["tuple", [["store", "sB"]]]]],
+                                   ["store", "sEnd"]]]
+                elif form in ("tuple", "source"):
+                    continue
+                elif outer == "seq":
+                    yield ["seq", [["set", "d.x", 5], br, ["store", "sEnd"]]]
+                else:
+                    yield ["source", [["set", "d.x", 5], br, ["store", "sEnd"]], 1]
+
+
 def cases(tier, seed):
+    for tree in _cache_branches():
+        yield {"k": "tree", "tree": tree, "flow": FLOW, "vseed": 3, "nv": NVARIANTS[tier]}
     for tree in _targeted():
         yield {"k": "tree", "tree": tree, "flow": FLOW, "vseed": 2, "nv": NVARIANTS[tier]}
     for tree in _enumerated(tier):
@@ -871,43 +897,53 @@ def _case(r, obs, tmp):
                          vobs[label]), tree=tree, variant=vtree)
         check_static(vtree, vrec, vobs, obs, "variant (%s)" % what, ctxinfo)
 
-    # ---- (2c) a deep copy of the built tree, nested under a new enclosing sequence: every
-    # element of the copy sees the fold of ITS enclosing sequences (the new prefix included),
-    # and the original keeps what it saw
+    # ---- (2c) deep copies of the built tree (a template analysis), each nested under a new
+    # enclosing sequence: every element of a copy sees the fold of ITS enclosing sequences
+    # (the new prefix included) - also when the prefixes of two copies differ only in how an
+    # equal value is written (1 / 1.0 / True) - and the original keeps what it saw
     if tree[0] in ("seq", "tuple") or (tree[0] == "split"):
         import lena.meta
         dc = build(tree, os.path.join(tmp, "dc"), flow_r)
-        twin = copy.deepcopy(dc)
-        key, val = rng.choice([("a", "OUT"), ("c", 7), ("d.y", "o"), ("b", "B2"), ("zz", 1)])
-        wrapped_tree = ["seq", [["set", key, val], copy.deepcopy(tree)]]
-        try:
-            _, wrec = M.fold(wrapped_tree)
-        except M.Unresolved:
-            wrec = None
-        if wrec is not None:
+        used = sorted(set(k for _, it in M.consumers(tree)
+                          for k in (M.fields_of(it[2]) if it[0] in ("write", "cache") else
+                                    [f for t in it[2].values() for f in M.fields_of(t)]
+                                    if it[0] == "mkfn" else [])
+                          if k.split(".")[0] in STATIC_TOP and k not in ("d", "e", "e.f")))
+        if used and rng.random() < 0.6:
+            key = rng.choice(used)
+            vals = rng.choice([[1, 1.0, True], [0, False, 0.0], [2, 2.0], [True, 1], [-0.0, 0]])
+        else:
+            key, val = rng.choice([("a", "OUT"), ("c", 7), ("d.y", "o"), ("b", "B2"), ("zz", 1)])
+            vals = [val]
+        for ci, val in enumerate(vals):
+            twin = copy.deepcopy(dc)
+            wrapped_tree = ["seq", [["set", key, val], copy.deepcopy(tree)]]
+            try:
+                _, wrec = M.fold(wrapped_tree)
+            except M.Unresolved:
+                continue
             try:
                 lena.core.Sequence(lena.meta.SetContext(key, copy.deepcopy(val)), twin.root)
             except lena.core.LenaKeyError as e:
                 obs.fail("keyerror-at-construction", "nesting a deep copy raised %r" % (e,))
-                wrec = None
-        if wrec is not None:
+                continue
             obs.count("deep_copied_trees_nested")
             wobs = observe(twin, wrec, os.path.join(tmp, "dc"), obs)
             check_static(wrapped_tree, wrec, wobs, obs,
-                         "deep copy of the tree nested under SetContext(%r, %r)" % (key, val),
-                         ctxinfo)
-            # the original was not touched by what happened to its copy
-            oobs = observe(dc, rec, os.path.join(tmp, "dc"), obs)
-            for label in oobs:
-                comparable, exp = M.expect_static(rec[label])
-                if comparable:
-                    obs.check(oobs[label] == exp,
-                              "original-changed-by-nesting-its-deep-copy:" +
-                              M.KIND_NAME[rec[label]["kind"]],
-                              "%s %r observed %r after a deep copy of the tree was nested under "
-                              "SetContext(%r, %r); the fold for the original gives %r"
-                              % (M.KIND_NAME[rec[label]["kind"]], rec[label]["item"],
-                                 oobs[label], key, val, exp), tree=tree)
+                         "deep copy no. %d of the tree nested under SetContext(%r, %r)"
+                         % (ci, key, val), ctxinfo)
+        # the original was not touched by what happened to its copies
+        oobs = observe(dc, rec, os.path.join(tmp, "dc"), obs)
+        for label in oobs:
+            comparable, exp = M.expect_static(rec[label])
+            if comparable:
+                obs.check(oobs[label] == exp,
+                          "original-changed-by-nesting-its-deep-copy:" +
+                          M.KIND_NAME[rec[label]["kind"]],
+                          "%s %r observed %r after deep copies of the tree were nested under "
+                          "SetContext(%r, %r); the fold for the original gives %r"
+                          % (M.KIND_NAME[rec[label]["kind"]], rec[label]["item"],
+                             oobs[label], key, vals, exp), tree=tree)
 
     # ---- (4) run the real tree, compare with the model's run
     if any(it[0] == "split" and len(it) > 2 and it[2].get("copy_buf") is False
@@ -967,6 +1003,44 @@ def _case(r, obs, tmp):
                       % (got, [(d, c) for d, c, _ in expected]), tree=tree)
     else:
         obs.count("runs_equal_model")
+    # ---- (5) the same tree built again in the same directory (the second run of a script):
+    # the cache files written by the first run exist now; what every element sees does not
+    # depend on the file system
+    if ncache:
+        existing = [os.path.join(dp, f) for dp, _, fs in os.walk(rdir) for f in fs
+                    if f.endswith(".pkl")]
+        obs.count("cache_files_existing_at_rebuild", len(existing))
+        try:
+            C = build(tree, rdir, flow_r)
+        except Exception as e:  # pylint: disable=broad-except
+            obs.fail("rebuild-with-existing-cache-raises:" + type(e).__name__,
+                     "building the tree again while its cache files %r exist raised %r"
+                     % (existing, e), tree=tree)
+            return
+        try:
+            got_root2 = C.root._get_context()
+        except lena.core.LenaKeyError as e:
+            got_root2 = "LenaKeyError(%s)" % (e,)
+        obs.check(got_root2 == final,
+                  "sequence-context-differs:built-while-cache-files-exist",
+                  "_get_context() of the root built while the cache files %r exist = %r, fold "
+                  "gives %r" % (existing, got_root2, final), tree=tree)
+        cobs = observe(C, rec, rdir, obs)
+        for label in cobs:
+            comparable, exp = M.expect_static(rec[label])
+            if comparable:
+                obs.check(cobs[label] == exp,
+                          "static-context-differs:built-while-cache-files-exist:" +
+                          M.KIND_NAME[rec[label]["kind"]],
+                          "built while the cache files %r exist: %s %r at path %r observed %r, "
+                          "the fold of the preceding SetContext elements gives %r"
+                          % (existing, M.KIND_NAME[rec[label]["kind"]], rec[label]["item"],
+                             rec[label]["path"], cobs[label], exp), tree=tree)
 
 
 RULE += (' Added: Split(copy_buf=False), static output.prefix / output.suffix with MakeFilename(prefix=, suffix=), an enumerated family of two-stage unresolved keys, consumers that change received run-time contexts in place.')
+RULE += (' Added: FillComputeSeq / FillRequestSeq nodes and tuple branches holding an accumulator; '
+         'several deep copies of one built tree nested under SetContext values that are equal but '
+         'written differently (1 / 1.0 / True); every tree with a Cache is built a second time in '
+         'the same directory after its run (cache files exist) and observed again; run-time '
+         'context values 1 / 1.0 / True.')
